@@ -7,6 +7,7 @@ import Mathlib.Tactic.Linarith
 import Mathlib.Tactic.Ring
 import Mathlib.Tactic.SplitIfs
 import Mathlib.Tactic.Positivity
+import RQ.Lemmas.WorldA
 
 deriving instance DecidableEq for RQ.Q.MOutcome
 
@@ -444,5 +445,21 @@ theorem signal_no_price_no_fill (pl : Bool) (slip : Slip) (o : Ord) (b : MBar) (
     signalMatch pl slip o b ct = .rejected := by
   unfold signalMatch
   rw [h]
+
+
+/-! ### whole runs of the composed world (`RQ/Model/World.lean`) -/
+
+/-- **C05 for whole runs**: whatever the strategy does and whatever the market tables are, every TRADE event a run of the composed
+world publishes for an order carries the price the matching rule prescribes — the deal price of the instrument's bar in force at
+that step (the auction bar for auction orders), valid and positive, moved by the configured slippage model -/
+theorem world_trade_price_prescribed (w : World) (ins : List WIn) (id : Nat) (q : Int) (p fee : R)
+    (h : WEv.order (.trade id q p fee) ∈ (w.run ins).2) :
+    ∃ ws ∈ RQ.Lemmas.WorldA.states w ins, ∃ (auction : Bool) (o : Ord) (wi : WIns) (d : DayIns) (deal : R),
+      id = o.id ∧ ws.cfg.find o.ins = some wi ∧ ws.dayOf o.ins = some d ∧
+      (if auction then d.auc else d.bar).deal = some deal ∧ 0 < deal ∧
+      tradePriceOf (ws.mcfg wi) o (if auction then d.auc else d.bar) auction deal = some p := by
+  obtain ⟨ws, hws, auction, o, wi, d, tv, cash, ct, cr, hid, hwi, hd, hm⟩ := RQ.Lemmas.WorldA.run_trade w ins id q p fee h
+  obtain ⟨deal, hdeal, hpos, htp⟩ := trade_price_prescribed _ _ _ _ _ _ _ _ _ _ _ _ _ hm
+  exact ⟨ws, hws, auction, o, wi, d, deal, hid, hwi, hd, hdeal, hpos, htp⟩
 
 end RQ.Props.C05
